@@ -25,6 +25,7 @@ func ProfileFor(prop string) *Profile {
 		w["bad"], w["idxtype"], w["toggle"], w["scan"] = 0.3, 0.2, 0.1, 0.3
 	case "C02":
 		p.MaxIdx = 3
+		p.AltKeyStyles, p.AltKeyProb = []string{"numeric"}, 0.3
 		p.RangeProb = 0.8
 		w["put"], w["update"], w["delete"], w["get"] = 4, 2, 1.5, 0.5
 		w["query"], w["scan"] = 5, 3
@@ -39,6 +40,7 @@ func ProfileFor(prop string) *Profile {
 		w["idxtype"] = 0.2
 	case "C04":
 		p.MaxIdx = 3
+		p.AltKeyStyles, p.AltKeyProb = []string{"numeric"}, 0.25
 		p.RangeProb = 0.8
 		p.MaxClients = 1
 		w["put"], w["update"], w["delete"] = 3, 1, 1
@@ -112,6 +114,10 @@ func ProfileFor(prop string) *Profile {
 		w["batchbad"], w["idxtype"], w["batchpartial"] = 0.3, 0.1, 0.4
 	default:
 		return nil
+	}
+	switch prop {
+	case "C01", "C02", "C03", "C04", "C19":
+		p.BigTables = true
 	}
 	if Tier == "thorough" {
 		// deeper bounds: longer histories, one more table, more keys per table
